@@ -33,7 +33,9 @@ func fsDir(tag string, i int) string {
 
 func c18Gen(seed int64, i int, dir string) (*gen.FSLayout, *gen.Dump) {
 	rr := core.NewRand(seed, 18, uint64(i))
-	l := gen.GenFS(rr, dir, &gen.FSCfg{Decoys: true, MissingSome: i%3 == 0})
+	// every fourth layout has a module nested in another one: which modules get detected depends on the
+	// order of the files, but a frame must always be explained by the longest detected root that contains it
+	l := gen.GenFS(rr, dir, &gen.FSCfg{Decoys: true, MissingSome: i%3 == 0, Nested: i%4 == 1})
 	return l, l.DumpFor(rr)
 }
 
@@ -96,8 +98,21 @@ func c18Eval(r *core.Run, c *c18Case) {
 			return
 		}
 	}
+	nested := c.Idx%4 == 1
 	for md, imp := range l.Mods {
 		if s.LocalGomods[md] != imp {
+			if nested {
+				// a nested module may stay undetected when a file of the enclosing module is looked at first
+				outer := false
+				for o := range s.LocalGomods {
+					if strings.HasPrefix(md, o+"/") {
+						outer = true
+					}
+				}
+				if outer {
+					continue
+				}
+			}
 			report("gomod-missed", fmt.Sprintf("module %q = %q not detected (got %v)", md, imp, s.LocalGomods))
 			return
 		}
@@ -134,6 +149,29 @@ func c18Eval(r *core.Run, c *c18Case) {
 			if f.TestMain {
 				if cl.Location != stack.Stdlib {
 					report("testmain", fmt.Sprintf("_test/_testmain.go classified %v", cl.Location))
+					return
+				}
+				continue
+			}
+			if nested && f.Class == gen.FSGoMod {
+				// oracle from the detected roots: the longest detected module root that contains the frame wins
+				best := ""
+				for md := range s.LocalGomods {
+					if strings.HasPrefix(cl.RemoteSrcPath, md+"/") && len(md) > len(best) {
+						best = md
+					}
+				}
+				if best == "" {
+					report("gomod-frame-unexplained", fmt.Sprintf("frame %s lies in no detected module %v", cl.RemoteSrcPath, s.LocalGomods))
+					return
+				}
+				rel := cl.RemoteSrcPath[len(best)+1:]
+				imp := s.LocalGomods[best]
+				if i := strings.LastIndexByte(rel, '/'); i >= 0 {
+					imp += "/" + rel[:i]
+				}
+				if cl.Location != stack.GoMod || cl.RelSrcPath != rel || cl.ImportPath != imp || cl.LocalSrcPath != cl.RemoteSrcPath {
+					report("nested-module-priority", fmt.Sprintf("frame %s: rel=%q import=%q class=%v; the innermost detected module is %q (%q): want rel=%q import=%q", cl.RemoteSrcPath, cl.RelSrcPath, cl.ImportPath, cl.Location, best, s.LocalGomods[best], rel, imp))
 					return
 				}
 				continue
